@@ -306,3 +306,4 @@ def run(ctx):
   r6_update_purity(ctx)
   r7_preserve_and_reset(ctx)
   r8_resume_equivalence(ctx)
+  shared.rule_single_traversal(ctx, 'C09.R9', ['quantizer:Quantizer.calibrate', 'calibrator:Calibrator.calibrate'])
